@@ -372,6 +372,61 @@ def check_init(rep, mod):
         R.notes.append('%s: bytes assigned by reset only: %d' % (tag, len(extra)))
 
 
+DEFLATE_USER = ('next_in', 'avail_in', 'total_in', 'next_out', 'avail_out', 'total_out', 'hufftables', 'level', 'level_buf_size', 'level_buf', 'end_of_stream', 'flush', 'gzip_flag', 'hist_bits')
+# internal_state bytes isal_deflate_stateless may read before writing them: each confirmed by reading, one reason per entry
+DEFLATE_STATELESS_CARRIED = {
+    'hash_mask': 'set_hash_mask() assigns it for every level check_level_req() accepts; the analysis does not correlate the two switches on level',
+    'bitbuf': 'create_icf_block_hdr saves the whole BitBuf2 with memcpy before set_buf() fills its pointers; the saved bytes are only ever copied back (bytes 12..39: padding and the three buffer pointers)',
+    'has_wrap_hdr': 'cross-call state by design: whether the gzip/zlib header of a multi-call stream was already written; isal_deflate_stateless_init clears it',
+    'has_hist': 'cross-call state by design (reset_match_history after a FULL_FLUSH call); with a garbage value the first-position lookup is still bounded by the match finders\' start guard (C17 R-DISTGUARD-*)',
+    'count': 'read only while state is ZSTATE_NEW_HDR / ZSTATE_HDR inside isal_deflate_pass; the level-0 one-shot path stores ZSTATE_BODY before calling it',
+}
+BITBUF_CARRIED = (12, 40)       # bytes of BitBuf2 covered by the entry above
+
+
+def check_upward_exposed_deflate(rep, mod):
+    import fieldinit, c19
+    R = rep.rule('I-INIT-DEFLATE', 'isal_deflate_stateless is specified to start every call from its own per-call reset: the bytes of the context it (with everything it calls, asm kernels included) may read before '
+                 'writing them are the caller-set fields and a frozen list of five internal fields, each with the reason it is harmless or deliberate cross-call state; any other internal field that becomes '
+                 'readable before it is written (a per-call reset dropped or moved into the init function) makes the output depend on what the previous call left behind', floor=19, unit='exposed fields')
+    A = fieldinit.Analysis(mod)
+    fieldinit.dispatch_ext(mod, A)
+    names = ['total_in_start', 'block_next', 'block_end', 'dist_mask', 'hash_mask', 'state', 'bitbuf', 'crc', 'has_wrap_hdr', 'has_eob_hdr', 'has_eob', 'has_hist', 'has_level_buf_init', 'count',
+             'tmp_out_buff', 'tmp_out_start', 'tmp_out_end', 'b_bytes_valid', 'b_bytes_processed', 'buffer', 'head']
+    off = c19.field_offsets('struct isal_zstream', ['internal_state.' + n for n in names] + list(DEFLATE_USER))
+    order = sorted(off.items(), key=lambda kv: kv[1])
+    ends = {n: (order[k + 1][1] if k + 1 < len(order) else 1 << 30) for k, (n, o) in enumerate(order)}
+
+    def fields_in(lo, hi):
+        return [(n, max(lo, o), min(hi, ends[n])) for n, o in order if o < hi and lo < ends[n]]
+    if 'isal_deflate_stateless' not in mod.funcs:
+        raise AnalysisBroken('isal_deflate_stateless not found')
+    UE, _, site = A.summary('isal_deflate_stateless')
+    seen = set()
+    for lo, hi in UE.get(0, ()):
+        for n, a, b in fields_in(lo, hi):
+            short = n.replace('internal_state.', '')
+            if (short, a, b) in seen:
+                continue
+            seen.add((short, a, b))
+            R.instance()
+            where = site.get((0, lo), 'igzip/igzip.c:isal_deflate_stateless')
+            if not n.startswith('internal_state.'):
+                R.check(short in DEFLATE_USER, where, 'isal_deflate_stateless reads stream->%s before writing it and it is not a documented caller-set field' % short, key='I-INIT-DEFLATE|%s' % short,
+                        sample='caller-set: %s' % short if short == 'gzip_flag' else None)
+                continue
+            ok = short in DEFLATE_STATELESS_CARRIED
+            if ok and short == 'bitbuf':
+                ok = a - off[n] >= BITBUF_CARRIED[0] and b - off[n] <= BITBUF_CARRIED[1]
+            R.check(ok, where, 'isal_deflate_stateless may read internal_state.%s (bytes %d..%d of it) before anything in the call has written it (first read: %s): the result of a one-shot call then depends on what a '
+                    'previous call left in the context' % (short, a - off[n], b - off[n], where), key='I-INIT-DEFLATE|%s' % short,
+                    sample='%s: %s' % (short, DEFLATE_STATELESS_CARRIED.get(short, ''))[:160] if ok else None)
+    if not any(x[0] in DEFLATE_USER for x in seen):
+        raise AnalysisBroken('I-INIT-DEFLATE: no caller-set field exposed; analysis lost the context parameter')
+    for k, v in DEFLATE_STATELESS_CARRIED.items():
+        R.notes.append('%s: %s' % (k, v))
+
+
 def main(tier):
     rep = Report('C15', tier, level='proof')
     rep.undecided = UNDECIDED
@@ -386,6 +441,7 @@ def main(tier):
     check_asm(rep, RC, mod)
     check_init(rep, mod)
     check_upward_exposed(rep, mod)
+    check_upward_exposed_deflate(rep, mod)
     check_scratch_clear(rep, mod)
     provenance.check_undef(rep, None, 'ALL', 130)
     return rep.finish()
